@@ -435,7 +435,7 @@ BENIGN += [
 
 
 def _hoist_len(fn):
-    w = [n for n in ast.walk(fn) if isinstance(n, ast.While)][-1]
+    w = next(n for n in ast.walk(fn) if isinstance(n, ast.While) and "nprint_idx" in ast.unparse(n.test))
     for blk in [n.body for n in ast.walk(fn) if isinstance(getattr(n, "body", None), list)]:
         if w in blk:
             blk.insert(blk.index(w), ast.parse("document_length: int = len(partial_document)").body[0])
